@@ -61,6 +61,18 @@ NOTES = {
  "C14-f": "escaped at first (comments were only placed between rule-body lines); a line break with a comment may now follow `[` / `name |` and precede `]` in filters, key filters and key captures, and comment lines separate filter clauses",
  "C15-f": "escaped at first (abstraction sites were clauses of bodies only); literals in the condition of an inner `when` block are abstracted to rule / file level, optionally with a `let` of the same name inside the guarded block",
  "C18-f": "escaped at first (substring offsets were literals, and the grammar has no negative float literal); a third of the substring calls take their offsets from the document (negative, whole, huge floats; i64::MIN)",
+ "C03-g": "escaped C03 at first (the flip law was only asserted for scalars and lists of lists; C01's model caught it); the law now also covers a list that lies entirely inside (the empty list included) or entirely outside a list of scalars",
+ "C04-g": "escaped at first (no two file-scope queries with the same path and different filters); the type-guard idiom was added to a quarter of the wide programs: 2-3 rules guarded by `when Resources.*[ Type == 'T' ] !empty` for different T, counting lets and a parameterised rule called from a guard",
+ "C06-g": "escaped at first (whether a pair is an evaluation error was learnt from the library, which the change affects alike); the `ee..` rules texts are now errors by construction, and raise them inside when blocks, query blocks, filters, rule conditions, referenced and parameterised rules",
+ "C07-g": "escaped at first (quick-xml does not check character data unless asked); the JUnit parser now unescapes every text and attribute value; `&` in values and custom messages",
+ "C08-g": "escaped at first (no float literal that overflows to infinity); three ill-typed shapes and dictionary tokens added; the grammar oracle now tells a parse-tree failure after parsing (infinite float cannot be serialised) from a rejection by the grammar",
+ "C09-g": "escaped at first (the truth about messages came from the evaluation record, which the change rewrites); the association message -> callee is now taken from the generated program, and parameterised rules may call earlier ones",
+ "C11-g": "relied on serde_json's inexact float parsing, which became finding F62 and was repaired; what is left of the change (JSON `-0` read as a float from a .json test file) is caught by the new stage 'number-spellings'",
+ "C12-g": "escaped C12 at first (caught by C06 once it had several test files per rules file); C12 now runs the one-case files as a directory (-a / -m / default x 4 formats): the run fails iff some file fails alone; half of the cases state the true statuses",
+ "C15-g": "escaped at first (interpolated variables were single strings); a list of two key names, one possibly missing, vs the clause written once per key",
+ "C16-g": "escaped at first (no clauses outside rules in tested files); a third of the programs have an implicit default rule with expectations under the name the test command gives it",
+ "C17-g": "escaped at first (parameter files were regular files); layout bit: the last parameter file is a symbolic link to a file without a data extension",
+ "C18-g": "escaped at first (out-of-range ints for parse_char were small); ints congruent to a digit modulo 2^8 / 2^16 / 2^32 and the i64 bounds added",
  "C09-a": "caught through the file-status law; C09 now also compares rule names with the generated programs",
 }
 rows = []
